@@ -67,8 +67,9 @@ Theorem C03_onebyte_view : forall a b items id, Forall wf_item1 items -> 1 <= id
 Proof. exact onebyte_view_agrees. Qed.
 Print Assumptions C03_onebyte_view.
 
-Theorem C03_twobyte_view : forall a b items id, Forall wf_item2 items -> 1 <= id <= 255 ->
-  let buf := 16 :: 0 :: a :: b :: enc_items true items in
+(* the two-byte form with any application bits: 0x100 followed by appbits, which a receiver ignores *)
+Theorem C03_twobyte_view : forall appbits a b items id, 0 <= appbits < 16 -> Forall wf_item2 items -> 1 <= id <= 255 ->
+  let buf := 16 :: appbits :: a :: b :: enc_items true items in
   twobyte_unmarshal buf = Ok buf /\
   twobyte_get_ids buf = Ok (map eid (elems items)) /\
   twobyte_get buf id = Ok (lookup (elems items) id).
@@ -78,7 +79,7 @@ Print Assumptions C03_twobyte_view.
 (* the raw (RFC 3550) view keeps any other block as the byte string it was handed, under id 0, and the
    RFC 8285 views refuse it (and vice versa); every view re-serialises byte-identically *)
 Theorem C03_raw_view : forall p0 p1 rest id, 0 <= p0 < 256 -> 0 <= p1 < 256 ->
-  be16 p0 p1 <> profile_one_byte -> be16 p0 p1 <> profile_two_byte ->
+  be16 p0 p1 <> profile_one_byte -> ext_form (be16 p0 p1) <> profile_two_byte ->
   let buf := p0 :: p1 :: rest in
   raw_unmarshal buf = Ok buf /\ raw_get_ids buf = [0] /\
   raw_get buf id = (if id =? 0 then Some buf else None) /\
@@ -86,9 +87,27 @@ Theorem C03_raw_view : forall p0 p1 rest id, 0 <= p0 < 256 -> 0 <= p1 < 256 ->
 Proof. exact raw_view. Qed.
 Print Assumptions C03_raw_view.
 
-Theorem C03_raw_view_refuses_8285 : forall a b rest,
+(* KF-C03-raw-view-value: "decode the same well-formed block to the same ids and values" fails for the raw
+   view's VALUE - it is the whole block, profile and length word included, where Header.GetExtension(0) of
+   a packet carrying the same block reports the block without them.  (A witness evaluated on the model; the
+   same block replayed on the implementation gives the same bytes.) *)
+Theorem C03_raw_view_value_refuted :
+  exists block r,
+    block = [18; 52; 0; 1; 222; 173; 190; 239] /\
+    raw_unmarshal block = Ok block /\ raw_get block 0 = Some block /\
+    header_unmarshal_into empty_header ([144; 96; 0; 1; 0; 0; 0; 2; 0; 0; 0; 3] ++ block) = Ok r /\
+    get_extension (hr_header r) 0 = Some [222; 173; 190; 239] /\
+    raw_get block 0 <> get_extension (hr_header r) 0.
+Proof.
+  exists [18; 52; 0; 1; 222; 173; 190; 239]. eexists. split; [reflexivity|].
+  split; [vm_compute; reflexivity|]. split; [vm_compute; reflexivity|].
+  split; [vm_compute; reflexivity|]. split; [vm_compute; reflexivity|]. vm_compute. discriminate.
+Qed.
+Print Assumptions C03_raw_view_value_refuted.
+
+Theorem C03_raw_view_refuses_8285 : forall appbits a b rest, 0 <= appbits < 16 ->
   raw_unmarshal (190 :: 222 :: a :: b :: rest) = Err ENotFound /\
-  raw_unmarshal (16 :: 0 :: a :: b :: rest) = Err ENotFound.
+  raw_unmarshal (16 :: appbits :: a :: b :: rest) = Err ENotFound.
 Proof. exact raw_view_refuses_8285. Qed.
 Print Assumptions C03_raw_view_refuses_8285.
 
@@ -120,6 +139,28 @@ Proof.
     constructor; [exact I|]. constructor; [cbn; lia|]. constructor; [exact I|]. constructor; [exact I|].
     constructor; [cbn; lia|]. constructor; [exact I|]. constructor; [exact I|]. constructor; [exact I|]. constructor.
   - split; [intros _; vm_compute; discriminate|discriminate].
+Qed.
+
+(* D31, repaired in /repo: a two-byte block announced by 0x1005 (application bits 5) is a two-byte block -
+   it used to be decoded as one legacy element holding the raw block *)
+Example C03_appbits_repaired :
+  let w := mkWire 2 false 96 1 2 3 [] (XTwo 5 [IElem 5 [170; 187; 204]; IElem 7 []; IPad]) [153] [] false in
+  wf_wire w /\
+  encode w = [144; 96; 0; 1; 0; 0; 0; 2; 0; 0; 0; 3; 16; 5; 0; 2; 5; 3; 170; 187; 204; 7; 0; 0; 153] /\
+  exists r, packet_unmarshal_into empty_packet (encode w) = Ok r /\
+    extension_profile (hdr (pr_packet r)) = 4101 /\
+    extensions (hdr (pr_packet r)) = [mkExt 5 [170; 187; 204]; mkExt 7 []] /\ payload (pr_packet r) = [153].
+Proof.
+  cbv zeta. split.
+  { unfold wf_wire, wf_block.
+    cbn [w_version w_pt w_seq w_ts w_ssrc w_csrc w_ext w_pad w_padfill block_body].
+    split; [lia|]. split; [lia|]. split; [lia|]. split; [lia|]. split; [lia|].
+    split; [vm_compute; discriminate|]. split; [constructor|].
+    split.
+    - split; [|split; vm_compute; congruence].
+      split; [lia|]. constructor; [cbn; lia|]. constructor; [cbn; lia|]. constructor; [exact I|]. constructor.
+    - split; [intros H; discriminate H|reflexivity]. }
+  split; [vm_compute; reflexivity|]. eexists. split; [vm_compute; reflexivity|]. repeat split.
 Qed.
 
 (* KF-C03-reserved15, as a witness evaluated on the model (vm_compute): a one-byte block of one
